@@ -5,6 +5,7 @@ Repository-specific classes (Params, TestNode, ...) are described in /verif/cont
 import ast
 import z3
 
+from .kinds import safe_forall
 from .kinds import (V, VNone, NONE, VTuple, VList, VDict, VFunc, VClass, VModule, VExc, Kind,
                     INT, BOOL, STR, REAL, Ref, Seq, SetK, Map, Opt, PyKind, ANY, RefSort, NULL,
                     const, concrete, fresh, fresh_name)
@@ -97,9 +98,9 @@ class Models:
             ax.append(str_lower(z3.StringVal(up)) == z3.StringVal(up.lower()))
             ax.append(str_lower(z3.StringVal(up.lower())) == z3.StringVal(up.lower()))
             ax.append(str_upper(z3.StringVal(up.lower())) == z3.StringVal(up))
-        ax.append(z3.ForAll([s], str_lower(str_lower(s)) == str_lower(s)))
+        ax.append(safe_forall([s], str_lower(str_lower(s)) == str_lower(s)))
         n = z3.Const("ax_n", z3.IntSort())
-        ax.append(z3.ForAll([n], z3.And(str_is_int(int_str(n)), str_int(int_str(n)) == n)))
+        ax.append(safe_forall([n], z3.And(str_is_int(int_str(n)), str_int(int_str(n)) == n)))
         from .kinds import USED_MEM
         for name, k in list(USED_MEM.items()):
             ax += k.axioms()
@@ -530,10 +531,10 @@ class Models:
         x = z3.Const(fresh_name("x"), es)
         n = v.kind.len(v.term)
         at = lambda q: v.kind.at(v.term, q)
-        st.assume(z3.ForAll([i], z3.Implies(z3.And(0 <= i, i < n), z3.Select(S, at(i))), patterns=[at(i)]))
+        st.assume(safe_forall([i], z3.Implies(z3.And(0 <= i, i < n), z3.Select(S, at(i))), patterns=[at(i)]))
         # direct link with list membership (a consequence of the two facts above and of the mem axioms)
-        st.assume(z3.ForAll([x], z3.Select(S, x) == v.kind.contains(v.term, x), patterns=[z3.Select(S, x)]))
-        st.assume(z3.ForAll([x], z3.Select(S, x) == v.kind.contains(v.term, x), patterns=[v.kind.contains(v.term, x)]))
+        st.assume(safe_forall([x], z3.Select(S, x) == v.kind.contains(v.term, x), patterns=[z3.Select(S, x)]))
+        st.assume(safe_forall([x], z3.Select(S, x) == v.kind.contains(v.term, x), patterns=[v.kind.contains(v.term, x)]))
         st.memo[mkey] = V(SetK(elem), S)
         return st.memo[mkey]
 
@@ -726,7 +727,7 @@ class Models:
         pos = fresh(INT, "pos")
         j = z3.Const(fresh_name("fj"), z3.IntSort())
         st.assume(z3.And(0 <= pos.term, pos.term < k.len(s.term), k.at(s.term, pos.term) == x.term,
-                         z3.ForAll([j], z3.Implies(z3.And(0 <= j, j < pos.term), k.at(s.term, j) != x.term))))
+                         safe_forall([j], z3.Implies(z3.And(0 <= j, j < pos.term), k.at(s.term, j) != x.term))))
         return pos
 
     def seq_remove(self, eng, s, args, kw, st, node):
@@ -1072,7 +1073,7 @@ class Models:
                     w = z3.Const(fresh_name("wit"), k.elem.sort())
                     x = z3.Const(fresh_name("x"), k.elem.sort())
                     st.assume(z3.Implies(c(a.term) > 0, z3.Select(a.term, w)))
-                    st.assume(z3.Implies(c(a.term) == 0, z3.ForAll([x], z3.Not(z3.Select(a.term, x)))))
+                    st.assume(z3.Implies(c(a.term) == 0, safe_forall([x], z3.Not(z3.Select(a.term, x)))))
                     st.memo[mkey] = True
                 yield st, V(INT, c(a.term))
                 return
@@ -1118,7 +1119,7 @@ class Models:
                 n = a.kind.len(a.term)
                 def body(st1):
                     cmp_ = (lambda x, y: x >= y) if is_max else (lambda x, y: x <= y)
-                    st1.assume(z3.ForAll([i], z3.Implies(z3.And(0 <= i, i < n), cmp_(r.term, a.kind.at(a.term, i)))))
+                    st1.assume(safe_forall([i], z3.Implies(z3.And(0 <= i, i < n), cmp_(r.term, a.kind.at(a.term, i)))))
                     j = fresh(INT, "argm")
                     st1.assume(z3.And(0 <= j.term, j.term < n, a.kind.at(a.term, j.term) == r.term))
                     return r
@@ -1206,10 +1207,10 @@ class Models:
         n = K.len(q.term)
         at = lambda z: K.at(q.term, z)
         pos = z3.Function(fresh_name("enumpos"), elem.sort(), z3.IntSort())
-        st.assume(z3.ForAll([i], z3.Implies(z3.And(0 <= i, i < n), z3.Select(s.term, at(i))), patterns=[at(i)]))
-        st.assume(z3.ForAll([x], z3.Implies(z3.Select(s.term, x), z3.And(0 <= pos(x), pos(x) < n, at(pos(x)) == x)),
+        st.assume(safe_forall([i], z3.Implies(z3.And(0 <= i, i < n), z3.Select(s.term, at(i))), patterns=[at(i)]))
+        st.assume(safe_forall([x], z3.Implies(z3.Select(s.term, x), z3.And(0 <= pos(x), pos(x) < n, at(pos(x)) == x)),
                             patterns=[z3.Select(s.term, x)]))
-        st.assume(z3.ForAll([i, j], z3.Implies(z3.And(0 <= i, i < j, j < n), at(i) != at(j)), patterns=[z3.MultiPattern(at(i), at(j))]))
+        st.assume(safe_forall([i, j], z3.Implies(z3.And(0 <= i, i < j, j < n), at(i) != at(j)), patterns=[z3.MultiPattern(at(i), at(j))]))
         return q
 
     def bi_tuple(self, eng, st, args, kw, node):
@@ -1515,7 +1516,7 @@ class Models:
             st1.frames.pop()
             guard = z3.And(j.term >= 0, j.term < dom.kind.len(dom.term))
             if is_forall:
-                yield st1, V(BOOL, z3.ForAll([j.term], z3.Implies(guard, body.term)))
+                yield st1, V(BOOL, safe_forall([j.term], z3.Implies(guard, body.term)))
             else:
                 yield st1, V(BOOL, z3.Exists([j.term], z3.And(guard, body.term)))
             return
@@ -1541,7 +1542,7 @@ class Models:
         st1.frames.pop()
         vars_ = [b.term for b in bound]
         if is_forall:
-            yield st1, V(BOOL, z3.ForAll(vars_, z3.Implies(guard, body.term)))
+            yield st1, V(BOOL, safe_forall(vars_, z3.Implies(guard, body.term)))
         else:
             yield st1, V(BOOL, z3.Exists(vars_, z3.And(guard, body.term)))
 
